@@ -23,17 +23,11 @@ def registry():
     # ------------------------------------------------------------------ counter blocks
     R.define('ctrval(p, n, big)', 'be(p, n, 16) if big else le(p, n, 16)')
     R.define('outside(t, prefix_len, n)', 't < prefix_len or t >= prefix_len + n')
-    cfgs_ccb = [{'name': '%s%d' % (e, bl), 'funcptr': {'increment': 'increment_' + e}, 'set': {'block_len': bl}}
-                for e in ('be', 'le') for bl in (16, 8)]
+    # complete case split: block_len in {8, 16} (every cipher's BLOCK_SIZE), prefix_len in [0, block_len)
+    cfgs_ccb = [{'name': '%s%d.p%d' % (e, bl, p), 'funcptr': {'increment': 'increment_' + e}, 'set': {'block_len': bl, 'prefix_len': p}}
+                for e in ('be', 'le') for bl in (16, 8) for p in range(bl)]
     R.fn('create_counter_blocks', regions={'counter_block0': 'u8[block_len]'}, allocates=True,
          alloc_result='u8[block_len * 8]', configs=cfgs_ccb, escapes=['result'],
-         loops={0: dict(invariants={
-             'cursor': 'i <= 7 and offset(current) == (i + 1) * block_len and offset(counter_blocks) == 0',
-             'template': 'all((k < (i + 1) * block_len and outside(k % block_len, prefix_len, counter_len)) ==> '
-                         'counter_blocks[k] == counter_block0[k % block_len] for k in range(8 * block_len))',
-             'counters': 'all(j <= i ==> ctrval(counter_blocks + j * block_len + prefix_len, counter_len, big) == '
-                         '(ctrval(counter_block0 + prefix_len, counter_len, big) + j) % pow2(8 * counter_len, 128) for j in range(8))'},
-             decreases='7 - i')},
          logical={'big': 'increment == increment_be'},
          requires={'geometry': '1 <= counter_len and counter_len <= 16 and prefix_len + counter_len <= block_len',
                    'increment': 'increment == increment_be or increment == increment_le'},
